@@ -47,6 +47,7 @@ type vfSCase struct {
 	perB, perK, perC      int // µs
 	init                  map[int]int64 // db -> offset already stored for rid
 	lat                   int           // µs of virtual time the target takes per request (monitors only: not in the op line, not compared with the model)
+	prev                  map[int]int64 // db -> offset stored under the PREVIOUS run id (vfPrevId): StartPoint is asked with [rid, previous id] and must merge them (two-id lookup of GetCheckpoint)
 	oth                   []string      // foreign records on the target: <db>:<run id>:<offset> (another id, possibly with rid as prefix)
 	raw                   [][][]byte
 	evs                   []vfSEv
@@ -114,16 +115,37 @@ func (c *vfSCase) opLine(tag int, ks []int) string {
 	}
 	fmt.Fprintf(&sb, " fdb=%s fcmd=%s fpre=%s fwl=%s", join(fdb), join(hexs(lc)), join(hexs(c.fpre)), join(hexs(c.fwl)))
 	fmt.Fprintf(&sb, " cp=%s rid=%s ver=%s per=%d:%d:%d", vfutil.HexS(c.cp), vfutil.HexS(c.rid), vfutil.HexS(config.Version), c.perB, c.perK, c.perC)
+	// init= is the MERGED view the model starts from (per database the current id's record, else the
+	// previous id's); prev= repeats the previous id's records so that a replay can seed them apart
 	var in []string
 	var ik []int
-	for d := range c.init {
+	merged := map[int]int64{}
+	for d, o := range c.prev {
+		merged[d] = o
+	}
+	for d, o := range c.init {
+		merged[d] = o
+	}
+	for d := range merged {
 		ik = append(ik, d)
 	}
 	sort.Ints(ik)
 	for _, d := range ik {
-		in = append(in, fmt.Sprintf("%d:%d", d, c.init[d]))
+		in = append(in, fmt.Sprintf("%d:%d", d, merged[d]))
 	}
 	fmt.Fprintf(&sb, " init=%s", join(in))
+	if len(c.prev) > 0 {
+		var pv []string
+		var pk []int
+		for d := range c.prev {
+			pk = append(pk, d)
+		}
+		sort.Ints(pk)
+		for _, d := range pk {
+			pv = append(pv, fmt.Sprintf("%d:%d", d, c.prev[d]))
+		}
+		fmt.Fprintf(&sb, " prev=%s", join(pv))
+	}
 	if c.lat > 0 { // latency cases are never sent to the model; the token makes their replay files re-runnable
 		fmt.Fprintf(&sb, " lat=%d", c.lat)
 	}
@@ -192,6 +214,17 @@ func (c *vfSCase) outputCfg() RedisOutputConfig {
 	return cfg
 }
 
+// vfPrevId is the id the source had before its last fail-over (master_replid2), same length as rid.
+func vfPrevId(c *vfSCase) string { return "rip" + c.rid[3:] }
+
+// ids are the run ids StartPoint is asked with: [current] or [current, previous]
+func (c *vfSCase) ids() []string {
+	if len(c.prev) > 0 {
+		return []string{c.rid, vfPrevId(c)}
+	}
+	return []string{c.rid}
+}
+
 func vfNewOutput(c *vfSCase, tg *vfdoubles.Target) *RedisOutput {
 	ro := NewRedisOutput(c.outputCfg())
 	rc := ro.cfg.Redis
@@ -204,6 +237,11 @@ func vfNewOutput(c *vfSCase, tg *vfdoubles.Target) *RedisOutput {
 func vfSeedTarget(c *vfSCase) *vfdoubles.Target {
 	tg := vfdoubles.NewTarget()
 	tg.Lenient = true
+	for db, off := range c.prev {
+		// the previous id's record: created before the current id's fields (HGETALL order), older mtime
+		pid := vfPrevId(c)
+		tg.Seed(db, "hset", c.cp, pid+"_mtime", strconv.FormatInt(1600000000000000000+int64(db), 10), pid+"_runid", pid, pid+"_version", config.Version, pid+"_offset", strconv.FormatInt(off, 10))
+	}
 	for db, off := range c.init {
 		// as checkpoint.SetCheckpoint writes it (end of a full sync / UpdateCheckpoint): with an mtime
 		tg.Seed(db, "hset", c.cp, c.rid+"_mtime", strconv.FormatInt(1700000000000000000+int64(db), 10), c.rid+"_runid", c.rid, c.rid+"_version", config.Version, c.rid+"_offset", strconv.FormatInt(off, 10))
@@ -233,6 +271,10 @@ func vfRunSend(t *testing.T, c *vfSCase, tg *vfdoubles.Target, startDb int, star
 		var tmu sync.Mutex
 		c.reqT = map[int]int{}
 		lat := time.Duration(c.lat) * time.Microsecond
+		// a slow target behind a SOCKET: what the pipelined sender writes piles up in the receive buffer, the
+		// sender can be any number of batches ahead (a bare net.Pipe lets it be one write ahead only)
+		tg.SockBuf = c.lat > 0 && c.pipeline
+		defer func() { tg.SockBuf = false }()
 		tg.Hook = func(idx int, _ vfdoubles.LogEntry) {
 			tmu.Lock()
 			c.reqT[idx-nSeed] = int(time.Since(t0) / time.Microsecond)
@@ -314,7 +356,7 @@ func vfRunResumed(t *testing.T, c *vfSCase, tk *vfdoubles.Target, start int64, s
 	synctest.Test(t, func(t *testing.T) {
 		ro := vfNewOutput(c, tk)
 		var err error
-		sp, err = ro.StartPoint(context.Background(), []string{c.rid})
+		sp, err = ro.StartPoint(context.Background(), c.ids())
 		if err != nil || sp.RunId == "?" || sp.Offset < start || sp.Offset > start+int64(len(stream)) || !boundary[sp.Offset] {
 			tk.CloseAll()
 			return
@@ -353,7 +395,7 @@ func vfRunResumed(t *testing.T, c *vfSCase, tk *vfdoubles.Target, start int64, s
 func vfRunAgain(t *testing.T, c *vfSCase, tg *vfdoubles.Target, ro *RedisOutput, start int64, stream []byte, boundary map[int64]bool) (sp StartPoint, log2 []vfdoubles.LogEntry, ok bool) {
 	synctest.Test(t, func(t *testing.T) {
 		var err error
-		sp, err = ro.StartPoint(context.Background(), []string{c.rid})
+		sp, err = ro.StartPoint(context.Background(), c.ids())
 		if err != nil || sp.RunId == "?" || sp.Offset < start || sp.Offset > start+int64(len(stream)) || !boundary[sp.Offset] {
 			return
 		}
@@ -691,6 +733,21 @@ func vfGenCase(r *vfutil.Rand, idx int) *vfSCase {
 		}
 	} else if r.Chance(1, 4) {
 		c.init = map[int]int64{0: c.start}
+	}
+	// TWO IDS (after a fail-over of the source StartPoint is asked with [master_replid, master_replid2] and
+	// fetchCheckpoint merges the fields of both per database): (A) the position is still stored under the
+	// PREVIOUS id (the situation between the fail-over and the relabel), (B) stale lower records of the
+	// previous id beside the current id's position, also in the same hash (what a relabel cut by a crash leaves)
+	if c.resume && c.sdb >= 0 && len(c.init) > 0 && r.Chance(1, 3) {
+		c.prev = map[int]int64{}
+		if r.Bool() || c.start <= 100 {
+			c.prev[c.sdb] = c.start
+			delete(c.init, c.sdb)
+		} else {
+			for i := r.Range(1, 2); i > 0; i-- {
+				c.prev[r.Intn(3)] = c.start - int64(r.Range(2, 60))
+			}
+		}
 	}
 	// records of OTHER run ids on the target: never this run's position. Ids have the same
 	// length as this run's (replication ids are 40 hex characters; GetCheckpoint matches hash
@@ -1104,7 +1161,7 @@ func vfSenderCase(t *testing.T, s *vfutil.Session, r *vfutil.Rand, c *vfSCase, t
 	var ks []int
 	if !c.resume {
 		// in-memory checkpoint only: nothing is read back from the target
-	} else if (vfutil.Thorough() && src != "exit") || len(log) <= 12 {
+	} else if (vfutil.Thorough() && src != "exit" && src != "pipe") || len(log) <= 12 {
 		for k := 0; k <= len(log); k++ {
 			ks = append(ks, k)
 		}
@@ -1135,7 +1192,7 @@ func vfSenderCase(t *testing.T, s *vfutil.Session, r *vfutil.Rand, c *vfSCase, t
 		pre := append(append([]vfdoubles.LogEntry{}, seedLog...), log[:k]...)
 		tk := vfdoubles.Replay(pre, 0)
 		ro2 := vfNewOutput(c, tk)
-		sp, err := ro2.StartPoint(context.Background(), []string{c.rid})
+		sp, err := ro2.StartPoint(context.Background(), c.ids())
 		tk.CloseAll()
 		if err != nil {
 			impl = append(impl, fmt.Sprintf("#%d sp k=%d err", tag, k))
@@ -1147,6 +1204,37 @@ func vfSenderCase(t *testing.T, s *vfutil.Session, r *vfutil.Rand, c *vfSCase, t
 		}
 		impl = append(impl, fmt.Sprintf("#%d sp k=%d off=%d dbs=%s", tag, k, sp.Offset, dbs))
 		sps = append(sps, spRes{k, sp.Offset, sp.DbId, sp.RunId})
+		if k == 0 && len(c.prev) > 0 {
+			// two-id target before the run wrote anything: the position is the largest MERGED record (per
+			// database the current id's fields win over the previous id's), whichever id it is stored under
+			wantOff, wantDb := int64(-1), -1
+			for d, o := range c.prev {
+				if _, own := c.init[d]; !own && o > wantOff {
+					wantOff, wantDb = o, d
+				}
+			}
+			for d, o := range c.init {
+				if o > wantOff {
+					wantOff, wantDb = o, d
+				}
+			}
+			if sp.Offset != wantOff || (sp.DbId != wantDb && sp.RunId != "?") || sp.RunId == "?" {
+				s.Violate("C02:two-id-lookup", fmt.Sprintf("target with records of the ids %v: the position is (%d, db %d), StartPoint reads (%d, db %d, run id %q)", c.ids(), wantOff, wantDb, sp.Offset, sp.DbId, sp.RunId), map[string]interface{}{"op": c.opLine(tag, nil), "k": 0})
+			}
+		}
+	}
+	if !c.resume && ro1 != nil {
+		// the in-memory position the run leaves (Model/SenderMem.lean, Props/C02Mem.lean): compared with the model
+		ro1.cpGuard.RLock()
+		impl = append(impl, fmt.Sprintf("#%d mem off=%d db=%d", tag, ro1.checkpointInMem.Offset, ro1.checkpointInMemDb))
+		ro1.cpGuard.RUnlock()
+		s.Count("mem_position_compared")
+		if ro1.checkpointInMem.Offset != c.start {
+			s.Count("mem_position_moved")
+		}
+		if ro1.checkpointInMemDb != 0 {
+			s.Count("mem_position_db_nonzero")
+		}
 	}
 	impl = append(impl, fmt.Sprintf("#%d end", tag))
 	if c.lat == 0 {
@@ -1155,6 +1243,12 @@ func vfSenderCase(t *testing.T, s *vfutil.Session, r *vfutil.Rand, c *vfSCase, t
 
 	// ------------------------------------------------------------ coverage
 	s.Count("src_" + src)
+	if len(c.prev) > 0 {
+		s.Count("two_id_targets")
+		if _, own := c.init[c.sdb]; !own {
+			s.Count("two_id_position_under_previous_id")
+		}
+	}
 	s.Count(fmt.Sprintf("mode_txn%v_resume%v_pl%v", c.txn, c.resume, c.pipeline))
 	s.Add("requests", len(log))
 	s.Add("crash_prefixes", len(ks))
@@ -1214,6 +1308,10 @@ func vfSenderCase(t *testing.T, s *vfutil.Session, r *vfutil.Rand, c *vfSCase, t
 			s.Violate("C01:extra-command", "target executed more than the expected stream: "+vfFmtCmd(a.db, a.args), replay(map[string]interface{}{"index": i}))
 			break
 		}
+		if !vfSameCmd(a.args, exp[i].args) && i > 0 && vfSameCmd(a.args, exp[i-1].args) && a.db == exp[i-1].db {
+			s.Violate("C01:duplicated", fmt.Sprintf("#%d the target executed %s a second time (the stream holds %s there)", i, vfFmtCmd(a.db, a.args), vfFmtCmd(exp[i].db, exp[i].args)), replay(map[string]interface{}{"index": i}))
+			break
+		}
 		if !vfSameCmd(a.args, exp[i].args) {
 			s.Violate("C01:command-differs", fmt.Sprintf("#%d executed %s expected %s", i, vfFmtCmd(a.db, a.args), vfFmtCmd(exp[i].db, exp[i].args)), replay(map[string]interface{}{"index": i}))
 			break
@@ -1252,6 +1350,27 @@ func vfSenderCase(t *testing.T, s *vfutil.Session, r *vfutil.Rand, c *vfSCase, t
 		}
 		if cov > len(dataApp) {
 			s.Violate("C02:write-skipped", fmt.Sprintf("run ended with the in-memory position at %d covering %d commands, only %d were executed", memOff, cov, len(dataApp)), replay(map[string]interface{}{"offset": memOff}))
+		}
+		// the pair the run leaves, judged against the stream by the oracle (independent of Model/SenderMem.lean):
+		// never below where the run started (D4: never the -1 placeholder), a command boundary, and the
+		// database the source intends there -- the next run of this process re-selects it
+		ro1.cpGuard.RLock()
+		memDb := ro1.checkpointInMemDb
+		ro1.cpGuard.RUnlock()
+		if memOff < c.start {
+			s.Violate("C07:mem-position-decreased", fmt.Sprintf("the run started at %d and left the in-memory position %d", c.start, memOff), replay(map[string]interface{}{"offset": memOff}))
+		} else if memOff != c.start {
+			idx := -1
+			for i, e := range cmdEnds {
+				if e == memOff {
+					idx = i
+				}
+			}
+			if idx < 0 {
+				s.Violate("C07:mem-offset-not-on-boundary", fmt.Sprintf("in-memory position %d is not a command boundary", memOff), replay(map[string]interface{}{"offset": memOff}))
+			} else if memDb != dbAfter[idx] {
+				s.Violate("C02:mem-position-wrong-db", fmt.Sprintf("run ended with the in-memory position %d in db %d, the source intends db %d there", memOff, memDb, dbAfter[idx]), replay(map[string]interface{}{"offset": memOff, "db": memDb}))
+			}
 		}
 	}
 	// C09: a source transaction is inside one target block, with its offset
@@ -1358,6 +1477,9 @@ func vfSenderCase(t *testing.T, s *vfutil.Session, r *vfutil.Rand, c *vfSCase, t
 		nRes := vfutil.Scale(2, 4)
 		if src != "gen" {
 			nRes = len(sps)
+		}
+		if src == "pipe" && nRes > 3 {
+			nRes = 3
 		}
 		if src == "exit" {
 			// the way the loop LEFT is the subject: restart from the end of the run
@@ -1504,11 +1626,16 @@ func vfSenderCase(t *testing.T, s *vfutil.Session, r *vfutil.Rand, c *vfSCase, t
 // ended cleanly -- nothing may be repeated. Run for the in-memory position (resume=false), where the
 // target holds no record that a fresh start could read. The first run receives the first j commands
 // of the stream, the second run the rest.
+var vfRerunForce int
+
 func vfRerunCase(t *testing.T, s *vfutil.Session, r *vfutil.Rand, c *vfSCase, tag int) {
 	if c.resume || len(c.raw) < 2 {
 		return
 	}
 	j := r.Range(1, len(c.raw)-1)
+	if vfRerunForce > 0 && vfRerunForce < len(c.raw) {
+		j = vfRerunForce // replay of a rerun violation: the cut the replay file names
+	}
 	c1 := *c
 	c1.raw = c.raw[:j]
 	c1.evs = []vfSEv{{t: 1500, n: j}, {t: 20000500, close: true}}
@@ -1551,11 +1678,46 @@ func vfRerunCase(t *testing.T, s *vfutil.Session, r *vfutil.Rand, c *vfSCase, ta
 		}
 		if a.db != want2[k].db {
 			s.Violate("C01:rerun-wrong-db", fmt.Sprintf("source reconnect after %d commands: second run #%d executes %s, the source intends db %d", j, k, vfFmtCmd(a.db, a.args), want2[k].db), rp)
+			s.Violate("C02:rerun-wrong-db", fmt.Sprintf("source reconnect after %d commands: the second run starts at %d in db %d and executes #%d %s, the source intends db %d", j, sp2.Offset, sp2.DbId, k, vfFmtCmd(a.db, a.args), want2[k].db), rp)
 			return
 		}
 	}
 	if first < len(app1) {
 		s.Violate("C01:rerun-repeats", fmt.Sprintf("source reconnect after %d commands and a clean end of the first run: the second run starts at %d and repeats %d commands", j, sp2.Offset, len(app1)-first), rp)
+		s.Violate("C02:rerun-repeats", fmt.Sprintf("source reconnect after %d commands and a clean end of the first run: the second run starts at %d and repeats %d commands", j, sp2.Offset, len(app1)-first), rp)
+	}
+}
+
+// vfPrefixIdProbe decides on the REAL code what fetchCheckpoint's prefix match (strings.HasPrefix(field,
+// runId)) reads when the target holds records of other run ids (Props/C07Reader.lean): an id of EQUAL length
+// must be invisible (prefix_match_equal_length; a violation otherwise), an id that EXTENDS the run's id is
+// read as the run's own (prefix_match_longer_id: counted, not a violation -- replication ids are 40
+// characters, such a pair cannot occur).
+func vfPrefixIdProbe(t *testing.T, s *vfutil.Session, r *vfutil.Rand) {
+	c := vfGenCase(r.Fork(), 0)
+	c.resume = true
+	c.rid = "rid1"
+	c.init = map[int]int64{0: 100}
+	for _, other := range []string{"rid2", "rid1x"} {
+		c.oth = []string{"1:" + other + ":900"}
+		tg := vfSeedTarget(c)
+		ro := vfNewOutput(c, tg)
+		sp, err := ro.StartPoint(context.Background(), c.ids())
+		tg.CloseAll()
+		if err != nil {
+			s.Count("prefix_id_probe_err")
+			continue
+		}
+		switch {
+		case other == "rid2" && (sp.Offset != 100 || sp.DbId != 0):
+			s.Violate("C02:other-id-visible", fmt.Sprintf("the position of %s is (100, db 0); with a record of the equal-length id %s at 900 in db 1 StartPoint reads (%d, db %d)", c.rid, other, sp.Offset, sp.DbId), map[string]interface{}{"op": c.opLine(0, nil), "other": other})
+		case other == "rid2":
+			s.Count("prefix_id_equal_length_invisible")
+		case sp.Offset == 900:
+			s.Count("prefix_id_reads_longer_id")
+		default:
+			s.Count("prefix_id_longer_id_invisible")
+		}
 	}
 }
 
@@ -1574,14 +1736,21 @@ func TestVerifSender(t *testing.T) {
 				op = op[:j]
 			}
 		}
-		vfSenderCase(t, s, r, vfParseCase(op), 0, "replay")
+		cr := vfParseCase(op)
+		vfSenderCase(t, s, r, cr, 0, "replay")
+		if i := strings.Index(string(b), "\"rerun_after\":"); i >= 0 {
+			// a violation of the in-process re-run: run that scenario again with the same cut
+			fmt.Sscanf(strings.TrimSpace(string(b)[i+len("\"rerun_after\":"):]), "%d", &vfRerunForce)
+			vfRerunCase(t, s, r, cr, 0)
+		}
 		return
 	}
+	vfPrefixIdProbe(t, s, vfutil.NewRand(4242))
 	for _, l := range vfutil.Corpus("Sender") {
 		vfSenderCase(t, s, r, vfParseCase(l), tag, "corpus")
 		tag++
 	}
-	n := vfutil.Scale(1500, 15000)
+	n := vfutil.Scale(1500, 9500)
 	for i := 0; i < n; i++ {
 		c := vfGenCase(r.Fork(), i)
 		vfSenderCase(t, s, r, c, tag, "gen")
@@ -1621,6 +1790,29 @@ func TestVerifSender(t *testing.T) {
 				ce.cancelAt = 1500 + r.Range(0, 3*n+6)*ce.lat + r.Range(1, 997)
 			}
 			vfSenderCase(t, s, r, &ce, tag, "exit")
+		}
+		if r.Chance(1, vfutil.Scale(6, 24)) && len(c.raw) >= 4 {
+			// THE PIPELINED SENDER RUNNING AHEAD (session 5): pipeline mode, one or two commands per batch, the
+			// whole stream in one burst, against a target behind a socket buffer that takes LONGER than a
+			// keep-alive period per request: the receive goroutine sits in Receive on one batch, the
+			// `pipeline` channel (cap 2) fills up, the hand-off of the next dispatched batch blocks, the
+			// tickers come due meanwhile. The target is healthy, only slow: every source command must still
+			// be executed once, in order (C01:duplicated / command-differs / extra-command), the positions
+			// written stay behind what was executed. Monitors only (the instants are not a function of the
+			// schedule).
+			cp := *c
+			cp.pipeline = true
+			cp.bc = uint(vfutil.Pick(r, []int{1, 1, 2}))
+			cp.lat = cp.perK + vfutil.Pick(r, []int{1000, 100000, cp.perK, 2500000})
+			n := len(cp.raw)
+			n1 := r.Range(n/2, n)
+			cp.evs = []vfSEv{{t: 1500, n: n1}}
+			tEnd := 1500 + (6*n+30)*cp.lat + 60000000
+			if n1 < n {
+				cp.evs = append(cp.evs, vfSEv{t: 1500 + r.Range(1, 4*n)*cp.lat/2, n: n - n1})
+			}
+			cp.evs = append(cp.evs, vfSEv{t: tEnd, close: true})
+			vfSenderCase(t, s, r, &cp, tag, "pipe")
 		}
 		tag++
 	}
@@ -1676,6 +1868,18 @@ func vfParseCase(op string) *vfSCase {
 		}
 		o, _ := strconv.ParseInt(ab[1], 10, 64)
 		c.init[atoi(ab[0])] = o
+	}
+	for _, p := range list(kv["prev"], ",") {
+		ab := strings.Split(p, ":")
+		if c.prev == nil {
+			c.prev = map[int]int64{}
+		}
+		o, _ := strconv.ParseInt(ab[1], 10, 64)
+		c.prev[atoi(ab[0])] = o
+		// init= carries the merged view: a database that shows the previous id's offset holds no record of the current id
+		if c.init[atoi(ab[0])] == o {
+			delete(c.init, atoi(ab[0]))
+		}
 	}
 	c.oth = list(kv["oth"], ",")
 	c.lat = atoi(kv["lat"])
